@@ -10,6 +10,7 @@
 package main
 
 import (
+	"bufio"
 	"bytes"
 	"crypto/sha1"
 	"errors"
@@ -497,10 +498,92 @@ func (w *world) peerOp(kind string, e opEnv, m protocol.Message, unch bool, opLi
 		}
 	}
 	items, _ := queuedItems(hp.p)
-	return fmt.Sprintf("%s r=%s m=[%s] a=%s | u=%s i=%s h=%s t=%s q=%d:%d x=%d n=%d | told=%s pend=%d",
+	line := fmt.Sprintf("%s r=%s m=[%s] a=%s | u=%s i=%s h=%s t=%s q=%d:%d x=%d n=%d | told=%s pend=%d",
 		tag, res, strings.Join(ms, ";"), a, b01(post.AmUnchoking), b01(post.Interested), b01(post.HasInfo),
 		b01(post.UploadTicking), len(post.Upload), qhash(post.Upload), items, peer.NumUnchoking(),
 		b01(hp.o.told), hp.o.npending)
+	// ---- the payload's lifetime: what the writer goroutine and the next reader do ----
+	w.handOver(msgs, opLine)
+	return line
+}
+
+// handOver does to every queued message what the connection's writer goroutine does —
+// the real protocol.Write, which hands a Piece's buffer back to the chunk pool — and then
+// what a connection's reader does when the next block comes in: the real protocol.Read of
+// 16 KiB Piece frames filled with marker bytes, which takes its buffers from that pool.
+// After that nothing the store holds may have changed: the bytes of every verified piece an
+// upload was served from still are the reference content (a payload that aliases the store
+// is overwritten with network bytes here).  Must run after the observation line is built:
+// the messages' own buffers are recycled by it.
+func (w *world) handOver(msgs []protocol.Message, opLine string) {
+	type span struct{ lo, hi int64 }
+	var served []span
+	for _, x := range msgs {
+		if pc, ok := x.(protocol.Piece); ok && len(pc.Data) > 0 {
+			off := int64(pc.Index)*int64(w.ps) + int64(pc.Begin)
+			served = append(served, span{off, off + int64(len(pc.Data))})
+		}
+		bw := bufio.NewWriter(io.Discard)
+		if p := vhlib.Recover(func() { protocol.Write(bw, x, nil) }); p != "" {
+			w.c.Violate("panic:write:"+fmt.Sprintf("%T", x), p, append(w.c.Case(), opLine))
+		}
+		bw.Flush()
+	}
+	if len(served) == 0 {
+		return
+	}
+	w.incoming(2)
+	for _, sp := range served {
+		if sp.hi > w.length {
+			continue
+		}
+		j := int(sp.lo / int64(w.ps))
+		lo, hi := w.pieceRange(j)
+		if hi-lo > 262144 { // a window around the block is enough for big pieces
+			lo, hi = max(lo, sp.lo-16384), min(hi, sp.hi+16384)
+		}
+		w.checkStore(j, lo, hi, opLine)
+	}
+}
+
+// incoming: n blocks arrive from the network (real protocol.Read, marker payload).
+func (w *world) incoming(n int) {
+	frame := make([]byte, 0, 13+16384)
+	frame = append(frame, 0, 0, 0x40, 9, 7, 0, 0, 0, 0, 0, 0, 0, 0)
+	for i := 0; i < 16384; i++ {
+		frame = append(frame, 0xEE)
+	}
+	var stream []byte
+	for i := 0; i < n; i++ {
+		stream = append(stream, frame...)
+	}
+	br := bufio.NewReader(bytes.NewReader(stream))
+	for i := 0; i < n; i++ {
+		vhlib.Recover(func() { protocol.Read(br, nil) })
+	}
+}
+
+// checkStore compares what the store returns for [lo, hi) of verified piece j with the
+// reference content.
+func (w *world) checkStore(j int, lo, hi int64, opLine string) {
+	if j < 0 || j >= len(w.pstate) || w.pstate[j] != 2 || hi <= lo {
+		return
+	}
+	buf := make([]byte, hi-lo)
+	n, _ := w.t.Pieces.ReadAt(buf, lo)
+	if n != len(buf) {
+		return // evicted meanwhile: nothing to compare
+	}
+	if ref := w.contentRange(lo, hi); !bytes.Equal(buf, ref) {
+		k := 0
+		for k < len(buf) && buf[k] == ref[k] {
+			k++
+		}
+		w.c.Violate("piece-payload:store-corrupted-after-upload",
+			fmt.Sprintf("verified piece %d no longer holds the reference content at byte offset %d (store has %#x, reference %#x) after its block was written out and another block was received", j, lo+int64(k), buf[k], ref[k]),
+			append(w.c.Case(), opLine))
+		w.pstate[j] = 1 // report once; later uploads from it are flagged by piece-payload:*
+	}
 }
 
 // expectFull: would ReadAt fill a buffer of r.Length at r's offset, by the harness's own
